@@ -76,7 +76,11 @@ def choose_ops(rng: random.Random, dv: A.DocView, n: int, *, scoped: bool = True
             # the value's own comment gets a mark that is unique to this operation
             val = re.sub(r"vc\d+", f"vc{rng.randrange(10 ** 7)}", val)
         fresh = rng.choice(fresh_names) + str(rng.randrange(100))
-        if k < 0.22 and leaves:
+        if k < 0.03 and inherited:
+            # a name that an `inherit` clause defines: overwriting it must be refused
+            p = rng.choice(inherited)
+            ops.append(Op(rng.choice(["set", "set", "rm"]), spell(p), val, "inherited-name"))
+        elif k < 0.22 and leaves:
             p = rng.choice(leaves)
             ops.append(Op("set", spell(p), val, "replace-leaf"))
         elif k < 0.34:
